@@ -16,7 +16,7 @@ EXTENDS Naturals, Sequences, FiniteSets, TLC, Json, SequencesExt, IOUtils
 
 Key == {"k1", "k2", "km"}
 Ctx == {"c1", "c2"}
-Body == {"d1", "d2"}
+Body == {"d1", "d2", "hd1"}   \* hd1: data whose bytes are the digest of d1 (digest-length data is still just data)
 GoodHT == {"sha256", "blake3"}
 HT == GoodHT \cup {"sha1", "unknown", "bad99"}
 KnownHT == {"sha256", "sha1", "blake3"}
